@@ -145,7 +145,7 @@ def check_case(case, ctx):
 
 
 def reach(counters, tier, info):
-    k = 1 if tier == "quick" else 20
+    k = 0.5 if tier == "quick" else 20
     out = []
     for fam in ("unified", "skipped"):
         for ubi in (False, True):
